@@ -154,6 +154,11 @@ def carriers():
 
     def s_store(auto):
         def store(c, ident, which):
+            if which == "target":
+                # a style of another family under the very same name, stored first (ODF names styles per family)
+                twin = Style("text", name=ident)
+                mark(twin, "same-name-other-family")
+                c.doc.insert_style(twin, automatic=auto)
             st = Style("paragraph", name=ident)
             mark(st, which)
             c.doc.insert_style(st, automatic=auto)
@@ -249,6 +254,11 @@ def run_carrier(res, cname, spec, ident):
         if not ok:
             outcome = why.split("(")[0]
             res.violation(f"lookup:{cname}:{outcome}", {"ident": ident_l, "why": why}, case)
+        if cname in ("style-auto", "style-common"):
+            ok2, why2 = verdict(c.doc.get_style("text", ident_l), ident_l, attr, expect_mark="same-name-other-family")
+            if not ok2:
+                outcome = "other-family-" + why2.split("(")[0]
+                res.violation(f"lookup:{cname}:same-name-in-another-family:{why2.split('(')[0]}", {"ident": ident_l, "why": why2}, case)
         miss = lookup(c, absent)
         if miss is not None:
             outcome = "near-miss-matched"
